@@ -10,7 +10,10 @@ from session import Session, ServerDied
 from server import FVH
 
 LEVEL = 'model_checking'
-RULE = ('(i) fault enumeration: every n-th raw write of a save is made to fail (hook H7) — the reply must be an error, the dump '
+RULE = ('TLC checks the snapshot discipline transcribed from rdb.rs (spec/impl/ImplBgsave.tla: own temporary file per save, value and '
+        'TTL read at one instant, rename at the end, flag cleared on every exit) over every interleaving of save steps, client '
+        'writes, write failures and crashes: Complete, PerKey, FlagSound, OwnTemp (the pinned design violates three of them). '
+        '(i) fault enumeration: every n-th raw write of a save is made to fail (hook H7) — the reply must be an error, the dump '
         'bytes must equal the previous completed dump, a following SAVE must succeed and restart must load the old data; the '
         'same for a BGSAVE whose thread fails, and for a process killed while a BGSAVE is parked at a sync point. (ii) schedules: '
         'a BGSAVE is parked at each per-key step (before get / after get / after ttl / after the sorted-set length) while a client '
@@ -307,6 +310,8 @@ def partial_of(orig, got):
 
 
 def run(ctx):
+    # the snapshot discipline transcribed from rdb.rs: every interleaving of save steps, client writes, failures, crashes
+    ctx.model_check('ImplBgsave', 'MC_Bgsave_fixed' if ctx.quick else 'MC_Bgsave_fixed_full', workers=12, timeout=1500, subdir='impl')
     n1 = fault_enumeration(ctx)
     n2 = bgsave_schedules(ctx)
     n3 = corruption(ctx)
